@@ -60,6 +60,9 @@ def cases(tier, seed):
     for fam, n, tol in itertools.product(fams, [5, 13, 24] + ([40] if tier == "thorough" else []), [1.0, 1e-2, 1e-4]):
         for budget in ("ample", "short"):
             out.append({"k": "warn", "fam": fam, "n": n, "cond": 1e3, "tol": tol, "budget": budget})
+            # the stopping test is on the true residual whatever the scale of the system and of the preconditioner
+            for pre, scale in (("jacobi", 1.0), ("jacobi", 1e4), ("small", 1.0), ("large", 1.0), ("none", 1e4), ("exact", 1e4)):
+                out.append({"k": "warn", "fam": fam, "n": n, "cond": 1e3, "tol": tol, "budget": budget, "pre": pre, "scale": scale})
     return out
 
 
@@ -338,17 +341,34 @@ def run_tridiag(case, feat, key):
 def run_warn(case, feat, key):
     """finishing without a NumericalWarning implies mean relative residual < tolerance"""
     n = case["n"]
-    A, lam = RA.spd(case["fam"], n, case["cond"], 1.0, f"W{case['fam']}{n}", env.SEED)
+    A, lam = RA.spd(case["fam"], n, case["cond"], case.get("scale", 1.0), f"W{case['fam']}{n}", env.SEED)
     B = torch.randn(n, 3, generator=RA.gen("WB", env.SEED), dtype=torch.float64)
     budget = 4 * n + 20 if case["budget"] == "ample" else max(2, n // 3)
-    out, warned = cg(A, B, tolerance=case["tol"], max_iter=budget)
+    pk = case.get("pre", "none")
+    if pk in ("small", "large"):  # a multiple of the identity is a valid SPD preconditioner: it changes nothing but internal scales
+        cst = 1e-2 if pk == "small" else 1e2
+        pre = lambda v: cst * v  # noqa: E731
+    else:
+        pre, _ = make_pre(pk, A, "w")
+    out, warned = cg(A, B, tolerance=case["tol"], max_iter=budget, preconditioner=pre)
     if isinstance(out, Raised):
         return result(VIOL, kind="internal-error", exc=out.type, msg=out.msg, feat=feat, keys=[key])
     res = ((A @ out - B).norm(dim=-2) / B.norm(dim=-2)).mean().item()
     tol_eff = max(case["tol"], 1e-5) * 1.5
     if not warned and res >= tol_eff:
         return result(VIOL, kind="tolerance", msg=f"finished without NumericalWarning but mean relative residual {res:.3g} >= tolerance {case['tol']}", feat=feat, keys=[key])
-    if warned and case["budget"] == "ample" and case["tol"] >= 1e-4:
+    # (the tolerance must be reachable: above the accuracy floor implied by the safe-division threshold on p^T A p with p = P^{-1} r)
+    if pk in ("small", "large"):
+        mu = cst * lam.min().item()
+    else:
+        Pw = make_pre(pk, A, "w")[1].double()
+        ww, Vw = torch.linalg.eigh(Pw)
+        Ph = (Vw * ww.clamp_min(0).sqrt()) @ Vw.mT
+        mu = torch.linalg.eigvalsh(0.5 * ((Ph @ A @ Ph) + (Ph @ A @ Ph).mT)).min().item()
+    floor = max(3e-4, 30 * 1e-5 / math.sqrt(max(mu, 1e-300)))
+    # (the converse - no warning when the budget is ample - is not part of the statement; it is only asserted for the plain
+    # unpreconditioned, unscaled systems on which the floor estimate was calibrated)
+    if warned and case["budget"] == "ample" and case["tol"] >= max(1e-4, floor) and "pre" not in case:
         return result(VIOL, kind="tolerance", msg=f"NumericalWarning although the budget {budget} is ample (residual {res:.3g}, tolerance {case['tol']})", feat=feat, keys=[key])
     return result(OK, feat=feat, keys=[key], ratio=0.0 if warned else res / tol_eff)
 
